@@ -185,12 +185,21 @@ func ruleText(k int, pr poolRule) string {
 // c01E2E: generated rule sets through Engine.Load/Run vs the model of placement+merge+loop and vs
 // the property-level reference, the per-(rule,node) oracle coming from running each rule alone.
 func c01E2E(c *Ctx) error {
+	return ruleSetComposition(c, "e2e-rules", "c01-e2e", c01Pool, c01Extra, "")
+}
+
+// ruleSetComposition: rule sets drawn from `pool` through Engine.Load/Run vs the model/reference fed with
+// the per-(rule,node) oracle obtained by running each pool rule alone.  `decls` are custom function
+// declarations every generated rules file carries (for pool rules using Filter(...)).
+func ruleSetComposition(c *Ctx, suite, stream string, pool []poolRule, extraTarget, decls string) error {
+	c01Pool := pool
+	c01Extra := extraTarget
 	res := c.Res
 	nSets, nTargets := 25, 3
 	if c.Thorough {
 		nSets, nTargets = 400, 8
 	}
-	rng := hx.Rng(c.Seed, "c01-e2e")
+	rng := hx.Rng(c.Seed, stream)
 	// root tags of the pool (gogrep is the oracle)
 	tags := make([]int, len(c01Pool))
 	for i, pr := range c01Pool {
@@ -234,7 +243,7 @@ func c01E2E(c *Ctx) error {
 		e, ok := aloneEngines[k]
 		if !ok {
 			var err error
-			e, err = hx.LoadRules(hx.RulesFile("func r(m dsl.Matcher) {\n" + ruleText(k, c01Pool[k]) + "}\n"))
+			e, err = hx.LoadRules(hx.RulesFile(decls + "func r(m dsl.Matcher) {\n" + ruleText(k, c01Pool[k]) + "}\n"))
 			if err != nil {
 				return nil, fmt.Errorf("pool rule %d (%s): %v", k, c01Pool[k].pat, err)
 			}
@@ -285,7 +294,7 @@ func c01E2E(c *Ctx) error {
 				}
 				sb.WriteString("}\n")
 			}
-			files = append(files, hx.RulesFile(sb.String()))
+			files = append(files, hx.RulesFile(decls+sb.String()))
 			hist = append(hist, fileRules)
 		}
 		// model rule ids must be unique per occurrence: occurrence index; root tag from the pool
@@ -386,7 +395,7 @@ func c01E2E(c *Ctx) error {
 			}
 			specImpl = append(specImpl, "ok "+strings.Join(dedup, " "))
 			inputs = append(inputs, map[string]interface{}{"rules": files, "target": tg.t.Name, "occurrence_to_pool": occPool, "target_src": string(tg.t.Src)})
-			res.Count("e2e-rules", strings.Join(files, "\n")+tg.t.Name, len(full) >= 3 && len(occPool) >= 2)
+			res.Count(suite, strings.Join(files, "\n")+tg.t.Name, len(full) >= 3 && len(occPool) >= 2)
 			res.Dist(fmt.Sprintf("e2e:files=%d", nf))
 			if len(ops) == 1 {
 				res.Sample(map[string]interface{}{"rules": files, "target": tg.t.Name, "reports": len(full), "pairs(node:rule)": clip(strings.Join(pairs, " "))})
@@ -413,7 +422,7 @@ func c01E2E(c *Ctx) error {
 	for i := range ops {
 		occPool := inputs[i].(map[string]interface{})["occurrence_to_pool"].([]int)
 		if got := trans(ans[i], occPool); got != impl[i] {
-			res.Disagree(hx.Disagreement{Suite: "e2e-rules", Op: clip(ops[i]), Impl: clip(impl[i]), Model: clip(got), Input: inputs[i]})
+			res.Disagree(hx.Disagreement{Suite: suite, Op: clip(ops[i]), Impl: clip(impl[i]), Model: clip(got), Input: inputs[i]})
 		}
 		if got := trans(spec[i], occPool); got != specImpl[i] {
 			sig, what := rulesSignature(specImpl[i], got)
